@@ -390,6 +390,14 @@ func RunTwin(spec TwinSpec, faulty bool, col *PickCol, collect bool) (st TwinSta
 	case <-done:
 	case <-time.After(90 * time.Second):
 		st.Failure = "scenario did not finish within 90 s"
+		// stop whatever still runs in the background (a compaction retrying for ever keeps every DB of the process
+		// from looking idle)
+		go func() {
+			defer func() { recover() }()
+			if db := rn.DB; db != nil {
+				db.Close()
+			}
+		}()
 	}
 	rn.mu.Lock()
 	for k, v := range rn.Stats {
@@ -511,6 +519,8 @@ func runTwinBody(spec TwinSpec, faulty bool, rn *Runner, r, fr *vlib.RNG, pool [
 		}
 		if !leveldb.VerifWaitIdle(db, 40*time.Second) {
 			fail("DB not idle 40 s after a range compaction (faults armed: %v)", faulty)
+			rn.Stor.Heal()
+			return
 		}
 		rn.Stor.Heal()
 		st.FaultHits += hitsOf(fs)
